@@ -82,6 +82,47 @@ class Recorder:
         D.LFUCache = self._orig
 
 
+def split_family(rng):
+    """one diff in which two lists are built from the same three near-duplicate sub-lists, split differently between the two sides
+    (added {a, b} / removed {c} in one list, added {a} / removed {b, c} in the other): the pairing of one must not be answered from the
+    cache entry of the other. The roles are given out in the order of the sub-lists' digests, the order in which the cache key lists them."""
+    from deepdiff import DeepHash
+    stem = [rng.randint(1000, 9999)] + [rng.randint(0, 9) for _ in range(8)]
+    subs = [stem + [10, 20, 30], stem + [11, 20, 30], stem + [10, 21, 31]]
+    subs.sort(key=lambda v: DeepHash(v)[v])
+    a, b, c = subs
+    common = [[100 * k + j for j in range(3)] for k in range(1, rng.randint(2, 4))]
+    ka, kb = rng.sample(['p', 'q', 'r', 's'], 2)
+    t1 = {ka: [c] + common, kb: [b, c] + common}
+    t2 = {ka: [a, b] + common, kb: [a] + common}
+    if rng.random() < 0.5:
+        t1, t2 = t2, t1
+    return t1, t2
+
+
+def cache_keys(ctx):
+    """the key under which a pairing is cached (combine_hashes_lists) separates different (added, removed) pairs of hash sets and does not
+    depend on the order inside either set - the assumption under which the memo model identifies a cache key with its query"""
+    from deepdiff.deephash import combine_hashes_lists
+    hexs = lambda: ''.join(ctx.rng.choice('0123456789abcdef') for _ in range(64))
+    for _ in range(200 if ctx.thorough() else 40):
+        hs = sorted(hexs() for _ in range(ctx.rng.randint(2, 5)))
+        cut1, cut2 = ctx.rng.sample(range(0, len(hs) + 1), 2)
+        A1, R1 = hs[:cut1], hs[cut1:]
+        A2, R2 = hs[:cut2], hs[cut2:]
+        ctx.evaluations += 1
+        k1 = combine_hashes_lists(items=[A1, R1], prefix='pairs_cache')
+        k2 = combine_hashes_lists(items=[A2, R2], prefix='pairs_cache')
+        if k1 == k2:
+            ctx.violate({'scenario': 'cache key', 'added/removed 1': [A1, R1], 'added/removed 2': [A2, R2]}, 'two different (added, removed) pairs of hash sets get the same pairs-cache key')
+        s1 = list(A1); ctx.rng.shuffle(s1); s2 = list(R1); ctx.rng.shuffle(s2)
+        if combine_hashes_lists(items=[s1, s2], prefix='pairs_cache') != k1:
+            ctx.violate({'scenario': 'cache key', 'added/removed': [A1, R1]}, 'the pairs-cache key depends on the order inside a hash set')
+        if combine_hashes_lists(items=[A1, R1], prefix='distance_cache') == k1:
+            ctx.violate({'scenario': 'cache key', 'added/removed': [A1, R1]}, 'pairs-cache and distance-cache keys coincide')
+        ctx.count('cache_keys')
+
+
 def check_grammar_and_build_replay(events):
     """per cache: every hit is `contains(True) get` of one key; every `set` closes an earlier miss of the same key (queries
     nest: the pairs query contains the distance queries); a miss may stay open (the auto-tuner switched the cache off).
@@ -124,6 +165,8 @@ def run(ctx, impl_only=False):
     g = Gen(ctx.rng, scalars=[0, 1, 2, 3, 'a', 'b', None, 1.5], kinds=('dict', 'list', 'tuple'), keys=['a', 'b', 1], max_depth=3, max_width=4, p_leaf=0.4)
     pairs = [near_duplicate_lists(ctx.rng) for _ in range(n)]
     pairs += [(x, C05.mutate(ctx.rng, g, copy.deepcopy(x))) for x in (g.container() for _ in range(n))]
+    pairs += [split_family(ctx.rng) for _ in range(n // 2)]
+    cache_keys(ctx)
     lines, metas = [], []
     grid = [(cs, ts, pl) for cs in (0, 1, 2, 7, 5000) for ts in (0, 1, 2, 10) for pl in (0, 1)]
     for i, (t1, t2) in enumerate(pairs):
